@@ -536,8 +536,13 @@ Section Bridge.
       try reflexivity.
     - destruct v; try reflexivity. cbn [insts_ok] in Hv.
       destruct item as [[f|cls ms byv|vals|id [|]]|i|i|c|nf f|ls|id o]; try reflexivity;
-        (rewrite (mapM_guard (insts_ok e) _ _ l (fun x Hp Hx => IH x Hp Hx) Hv); [reflexivity|];
-         intro E; apply Hn; rewrite E; reflexivity).
+        try (cbn [bind] in Hn |- *;
+             rewrite (mapM_guard (insts_ok e) _ _ l (fun x Hp Hx => IH x Hp Hx) Hv); [reflexivity|];
+             intro E; apply Hn; rewrite E; reflexivity).
+      (* Array of a class reference: Array.serialize reads the serializer of the class before iterating *)
+      destruct (if class_is_fast e c then Ok tt else Raise AttributeError) as [u|ex]; cbn [bind] in Hn |- *; [|reflexivity].
+      rewrite (mapM_guard (insts_ok e) _ _ l (fun x Hp Hx => IH x Hp Hx) Hv); [reflexivity|].
+      intro E. apply Hn. rewrite E. reflexivity.
     - destruct v; try reflexivity. cbn [insts_ok] in Hv.
       destruct (match item with TRef c => if class_is_fast e c then Ok tt else Raise AttributeError | _ => Ok tt end)
         as [u|ex]; cbn [bind] in Hn |- *; [|reflexivity].
